@@ -390,7 +390,7 @@ def run(ctx):
     @settings(max_examples=4000 if thorough else 600, deadline=None, database=None, phases=[Phase.generate],
               suppress_health_check=list(HealthCheck))
     @given(ci=st.integers(0, len(CONFIGS) - 1), wiring=st.sampled_from([1, 2, 2, 3, 0, 4]),
-           m0=st.sampled_from([0, 999, 65000, 2**31, 2**32 - 5000, 2**32 + 17]),
+           m0=st.sampled_from([0, 999, 65000, 2**31, 2**32 - 5000, 2**32 + 17, 2**64 - 5000, 2**64 - 70000, 2**64 - 4000000]),
            word=st.lists(step_strategy, min_size=20, max_size=300 if thorough else 120))
     def gen(ci, wiring, m0, word):
         cfg = CONFIGS[ci]
@@ -402,7 +402,7 @@ def run(ctx):
         for k, (si, o) in enumerate(word):
             s = base[si % len(base)]
             m += s
-            ready, v = outcome_value(o, m)
+            ready, v = outcome_value(o, m if m0 < 2**40 else m - m0)    # (the counter may start just below its wrap at 2^64)
             if wiring in (0, 4) and o in ("notready", "const", "invalid") and k % 7 != 6:
                 # no reference clock: most loop() calls are not followed by a reading
                 v = "quiet"
